@@ -37,6 +37,8 @@ def _load(n):
 HARNESSES += _load("sg_common").sg_harnesses(("SEL_RD",))
 # ALAC staging layer: count / position contract of the block codec's read and write functions
 HARNESSES += _load("blk_common").alac_stage_harnesses(("SEL_READ", "SEL_WRITE"))
+# MS ADPCM write staging (reads exactly the items the caller supplied)
+HARNESSES += _load("blk_common").ms_stage_harnesses()
 
 META = {"assumptions": ["I_open (harness/include/handle.h) is the handle invariant", "codec entry points satisfy K-codec-read/-write/K-seek (proved per codec in the codec harnesses)"],
         "outside": ["request sizes beyond 2 frames at wrapper level (arithmetic is uniform in len)"]}
